@@ -20,7 +20,7 @@ use crate::wmo_types::{WmoDoodadSet, WmoFlags, WmoPortalReference};
 use std::io::Write;
 use crate::writer::WmoWriter;
 
-fn info<const N: usize>(out: &Sink<N>, id: &[u8; 4], at: usize, size: u32) -> ChunkInfo {
+fn info<B: Bytes>(out: &B, id: &[u8; 4], at: usize, size: u32) -> ChunkInfo {
     assert!(id_at(out, at, id), "expected chunk is not at the position the chunk law puts it");
     assert!(size_at(out, at) == size as usize, "declared chunk size differs from the expected payload");
     ChunkInfo { id: ChunkId { bytes: [id[3], id[2], id[1], id[0]] }, offset: at as u64, size }
@@ -141,7 +141,8 @@ fn c15r_group_info_via_root_parser() {
     std::mem::forget((r, r2, g, q));
 }
 
-/// witness of known finding mohd-size: a root without any list (MVER + MOHD only) is rejected by parse_wmo
+/// witness of known finding mohd-size through the reader behind parse_wmo: the header flags do not come back (they are written
+/// at 0x20, where the reader has wmo_id; the reader's flags at 0x3C are the first bytes of whatever follows - here zeros)
 #[kani::proof]
 #[kani::stub(std::fmt::format, vio::fmt_stub)]
 #[kani::stub(std::hash::RandomState::new, common::rs_stub)]
@@ -151,33 +152,15 @@ fn c15r_root_mohd_size_witness() {
     root.header = crate::wmo_types::WmoHeader { n_materials: 0, n_groups: 0, n_portals: 0, n_lights: 0, n_doodad_names: 0, n_doodad_defs: 0, n_doodad_sets: 0,
         flags: WmoFlags::OUTDOOR, ambient_color: Color { r: 1, g: 2, b: 3, a: 4 } };
     root.bounding_box = BoundingBox { min: Vec3::default(), max: Vec3 { x: 1.0, y: 1.0, z: 1.0 } };
-    let mut out = Sink::<96>::new();
-    let r = WmoWriter::new().write_root(&mut out, &root, WmoVersion::Classic);
-    assert!(r.is_ok());
-    let mut src = Src::<96>::new(out.buf, out.pos);
-    let p = parse_wmo(&mut src);
-    assert!(p.is_ok(), "[mohd-size] MOHD: root written by write_root (60-byte MOHD) is rejected by parse_wmo (64-byte MOHD)");
-    std::mem::forget((r, root, p));
-}
-
-/// witness of known finding mogp-header through the public reader: a group with one vertex does not come back
-#[kani::proof]
-#[kani::stub(std::fmt::format, vio::fmt_stub)]
-#[kani::unwind(12)]
-fn c15r_group_via_parse_wmo_witness() {
-    let g = crate::wmo_group_types::WmoGroup {
-        header: WmoGroupHeader { flags: WmoGroupFlags::empty(), bounding_box: BoundingBox { min: Vec3::default(), max: Vec3::default() }, name_offset: 0, group_index: 0 },
-        materials: Vec::new(), vertices: vec![Vec3 { x: 1.0, y: 2.0, z: 3.0 }], normals: Vec::new(), tex_coords: Vec::new(), batches: Vec::new(),
-        indices: Vec::new(), vertex_colors: None, bsp_nodes: None, liquid: None, doodad_refs: None,
-    };
-    let mut out = Sink::<96>::new();
-    let r = WmoWriter::new().write_group(&mut out, &g, WmoVersion::Classic);
-    assert!(r.is_ok());
-    let mut src = Src::<96>::new(out.buf, out.pos);
-    let p = parse_wmo(&mut src);
-    let ok = match &p { Ok(ParsedWmo::Group(q)) => q.vertex_positions.len() == 1, _ => false };
-    assert!(ok, "[mogp-header] MOGP: group written by write_group does not come back from parse_wmo (36-byte group header instead of 68)");
-    std::mem::forget((r, g, p));
+    let mut out = Sink::<72>::new();
+    let r = WmoWriter::new().write_header(&mut out, &root, WmoVersion::Classic);
+    assert!(r.is_ok() && out.pos == 68);
+    let d = disc(vec![info(&out, b"MOHD", 0, 60)], 72);
+    let mut src = Src::<72>::new(out.buf, 72);
+    let q = parse_root_file(&mut src, d).unwrap();
+    let flags = q.flags;
+    std::mem::forget((r, root, q));
+    assert!(flags as u32 == WmoFlags::OUTDOOR.bits(), "[mohd-size] MOHD: header flags written by write_header are not the flags parse_root_file / parse_wmo reads (60-byte MOHD, 64 expected)");
 }
 
 #[kani::proof]
